@@ -20,6 +20,7 @@ package main
 import (
 	"bufio"
 	"bytes"
+	"encoding/csv"
 	"encoding/hex"
 	"errors"
 	"fmt"
@@ -474,18 +475,21 @@ func c19File1(c *ctx, f c19File, opt c19Opts, d *Driver, impl *[]string) {
 		var back fai.Index
 		var rerr error
 		o = guard(func() { back, rerr = fai.ReadFrom(bytes.NewReader(wbuf.Bytes())) })
-		quoted := bytes.IndexByte(wbuf.Bytes(), '"') >= 0
-		qcls := ""
-		if quoted {
-			qcls = ".quote-in-name"
-		}
 		switch {
 		case o.panicked:
-			r.fail("fai.roundtrip.panic"+qcls, o.panicVal, in())
+			r.fail("fai.roundtrip.panic", o.panicVal, in())
 		case rerr != nil:
-			r.fail("fai.roundtrip.error"+qcls, fmt.Sprintf("ReadFrom(WriteTo(idx)): %v", rerr), in())
+			// The recorded finding is exactly: a name contains a double quote, encoding/csv reports a quoting
+			// error (bare quote, unterminated quoted field, or the field count a swallowed line produces), and the
+			// SAME index with the quotes replaced by 'q' survives the round trip. Anything else keeps the
+			// unlisted signature fai.roundtrip.error.
+			sig := "fai.roundtrip.error"
+			if c19QuoteFinding(idx, rerr) {
+				sig += ".quote-in-name"
+			}
+			r.fail(sig, fmt.Sprintf("ReadFrom(WriteTo(idx)): %v", rerr), in())
 		case !reflect.DeepEqual(back, idx):
-			r.fail("fai.roundtrip.differs"+qcls, fmt.Sprintf("ReadFrom(WriteTo(idx)) = %v, idx = %v", back, idx), in())
+			r.fail("fai.roundtrip.differs", fmt.Sprintf("ReadFrom(WriteTo(idx)) = %v, idx = %v", back, idx), in())
 		}
 		if !o.panicked && !c19HasQuotedField(wbuf.Bytes()) {
 			add(c19ReadFromStr(back, rerr), "c19.readfrom %s", hexs(wbuf.Bytes()))
@@ -635,6 +639,40 @@ func c19Trunc(s string) string {
 		return s[:80] + "..."
 	}
 	return s
+}
+
+// c19QuoteFinding decides whether a failed WriteTo/ReadFrom round trip is the recorded quote-in-name finding
+// and nothing else: (1) some name contains '"', (2) the error is a *csv.ParseError about quoting, (3) with
+// every '"' in the names replaced by 'q' (names staying distinct) the round trip of the same records succeeds.
+func c19QuoteFinding(idx fai.Index, rerr error) bool {
+	hasQuote := false
+	for name := range idx {
+		if strings.Contains(name, "\"") {
+			hasQuote = true
+		}
+	}
+	if !hasQuote {
+		return false
+	}
+	var pe *csv.ParseError
+	if !errors.As(rerr, &pe) || !(pe.Err == csv.ErrBareQuote || pe.Err == csv.ErrQuote || pe.Err == csv.ErrFieldCount) {
+		return false
+	}
+	clean := fai.Index{}
+	for name, rec := range idx {
+		n := strings.ReplaceAll(name, "\"", "q")
+		if _, dup := clean[n]; dup {
+			return false // cannot build the control; do not mask
+		}
+		rec.Name = n
+		clean[n] = rec
+	}
+	var w bytes.Buffer
+	if err := fai.WriteTo(&w, clean); err != nil {
+		return false
+	}
+	back, err := fai.ReadFrom(bytes.NewReader(w.Bytes()))
+	return err == nil && reflect.DeepEqual(back, clean)
 }
 
 func c19HasQuotedField(text []byte) bool {
